@@ -112,6 +112,9 @@ func DecodeSenc(hdr BoxHeader, startPos uint64, r io.Reader) (Box, error) {
 	if hdr.Size < 16 {
 		return nil, fmt.Errorf("box size %d less than min size 16", hdr.Size)
 	}
+	if hdr.payloadLen() < 8 {
+		return nil, fmt.Errorf("box payload size %d less than min size 8", hdr.payloadLen())
+	}
 	data, err := readBoxBody(r, hdr)
 	if err != nil {
 		return nil, err
@@ -156,6 +159,9 @@ func DecodeSencSR(hdr BoxHeader, startPos uint64, sr bits.SliceReader) (Box, err
 	if hdr.Size < 16 {
 		return nil, fmt.Errorf("box size %d less than min size 16", hdr.Size)
 	}
+	if hdr.payloadLen() < 8 {
+		return nil, fmt.Errorf("box payload size %d less than min size 8", hdr.payloadLen())
+	}
 
 	versionAndFlags := sr.ReadUint32()
 	version := byte(versionAndFlags >> 24)
@@ -165,7 +171,7 @@ func DecodeSencSR(hdr BoxHeader, startPos uint64, sr bits.SliceReader) (Box, err
 	flags := versionAndFlags & flagsMask
 	sampleCount := sr.ReadUint32()
 
-	if flags&UseSubSampleEncryption != 0 && ((hdr.Size - 16) < 2*uint64(sampleCount)) {
+	if flags&UseSubSampleEncryption != 0 && (uint64(hdr.payloadLen()-8) < 2*uint64(sampleCount)) {
 		return nil, fmt.Errorf("box size %d too small for %d samples and subSampleEncryption",
 			hdr.Size, sampleCount)
 	}
